@@ -1678,8 +1678,35 @@ def _uses_unloadable(r):
 # entry points
 # ---------------------------------------------------------------------------
 
+def permuted_args_probe(ctx: Ctx, real: "Real"):
+    """union members of ONE origin whose arguments are permutations of each other (tuple[int, float] | tuple[float, int],
+    dict[str, int] | dict[int, str], nested, in typing and builtin spellings): the member order must not survive"""
+    import itertools
+    A = [int, float, str, bytes]
+    members = []
+    for x, y in itertools.permutations(A, 2):
+        members.append((tuple[x, y], typing.Tuple[x, y], tuple[y, x], typing.Tuple[y, x]))
+        members.append((dict[x, y], typing.Dict[x, y], dict[y, x], typing.Dict[y, x]))
+        members.append((list[dict[x, y]], typing.List[typing.Dict[x, y]], list[dict[y, x]], typing.List[typing.Dict[y, x]]))
+    for a1, a2, b1, b2 in members:
+        for extra in ((), (type(None),), (int,)):
+            u1 = typing.Union[(a1, b1) + extra]
+            u2 = typing.Union[extra + (b2, a2)]
+            real._cache.cache_clear()
+            n1 = real.norm(u1)
+            real._cache.cache_clear()
+            n2 = real.norm(u2)
+            case = {"probe": "permuted-args", "u1": repr(u1), "u2": repr(u2)}
+            ctx.note_case(case, nontrivial=True, kind="probe:permuted-args")
+            if n1 != n2:
+                ctx.fail("equiv:reorder", f"equivalent unions normalise differently: {u1!r} vs {u2!r}", case)
+            elif hash(n1) != hash(n2):
+                ctx.fail("hash:reorder", f"equal normal forms with different hashes: {u1!r} vs {u2!r}", case)
+
+
 def run(ctx: Ctx):
     real = Real()
+    permuted_args_probe(ctx, real)
     drv = None
     if ctx.driver_ok:
         try:
@@ -1698,6 +1725,7 @@ def run(ctx: Ctx):
 
 
 def search(ctx: Ctx):
+    permuted_args_probe(ctx, Real())
     """Directed search after a broken tie: the disagreeing cases first, then a larger random budget (oracle only)."""
     real = Real()
     for d in ctx.disagreements[:300]:
